@@ -339,7 +339,9 @@ class Base(unittest.TestCase):
         for k, c in reversed(list(enumerate(self.spec["cleanups"]))):
             if c.get("exc") == "error" and c.get("excStyle") == "noframes":
                 # a built-in registered as clean-up fails: the traceback has no frame outside unittest
-                self.addCleanup(os.rmdir, os.path.join(HERE, "no-such-directory-%d-%d" % (self.spec["id"], k)))
+                # (with "once": only the first time this test runs in this process)
+                if not (c.get("once") and _attempt("once", (self.spec["id"], str(["cleanup", k]))) > 0):
+                    self.addCleanup(os.rmdir, os.path.join(HERE, "no-such-directory-%d-%d" % (self.spec["id"], k)))
                 c = dict(c, exc=None)
             self.addCleanup(do_part, self, ["cleanup", k], c)
         do_part(self, ["setUp"], self.spec["setUp"])
